@@ -198,11 +198,12 @@ def ltV (l r : V) : Bool :=
     | _, _ => false
   | _, _ => false
 
-/-- Python `item == elem` where `item` is any filter value and `elem` a JSON-like value. -/
-def pyEqVJ (item : V) (elem : J) : Bool :=
+/-- `self._eq_values(item, elem)` where `item` is any filter value and `elem` an element of a JSON array: the
+    equality `==` uses (booleans are not numbers, deep); a node list - nothing, or several nodes - is not a value
+    and `_contains` answers `False` for it before looking at the container. -/
+def eqVJ (item : V) (elem : J) : Bool :=
   match item with
-  | .val a => pyEq a elem
-  | .nodes ns => ns.isEmpty && (match elem with | .arr [] => true | _ => false)
+  | .val a => a.eqv elem
   | _ => false
 
 /-- `JSONPathEnvironment._contains(container, item)`; `none` when `container` is neither a
@@ -213,7 +214,7 @@ def containsV (container item : V) : Option Bool :=
     match item with
     | .val (.str t) => some (isInfix t s)
     | _ => some false
-  | .val (.arr xs) => some (xs.any (pyEqVJ item))
+  | .val (.arr xs) => some (xs.any (eqVJ item))
   | .val (.obj kvs) =>
     match item with
     | .val (.str k) => some (dictHas kvs k)
